@@ -468,6 +468,26 @@ func histTypeSystem() *schema.TypeSystem {
 	return ts
 }
 
+// explicitTypeSystem: the schemas used for the EXPLICIT binds of a history.  They describe the same Go types as
+// histTypeSystem (which mirrors what inference produces) but differ from it observably -- a tuple representation, a
+// renamed field, other type names -- so that an explicit schema leaking into a later inferred bind of the same Go type
+// (or the other way round) changes a result.
+func explicitTypeSystem() *schema.TypeSystem {
+	ts := new(schema.TypeSystem)
+	ts.Init()
+	ts.Accumulate(schema.SpawnString("String"))
+	ts.Accumulate(schema.SpawnInt("Int"))
+	ts.Accumulate(schema.SpawnStruct("XPerson", []schema.StructField{
+		schema.SpawnStructField("Name", "String", false, false), schema.SpawnStructField("Age", "Int", false, false)},
+		schema.SpawnStructRepresentationTuple()))
+	ts.Accumulate(schema.SpawnList("XTags", "String", false))
+	ts.Accumulate(schema.SpawnList("XPeople", "XPerson", false))
+	ts.Accumulate(schema.SpawnStruct("XTeam", []schema.StructField{
+		schema.SpawnStructField("Lead", "XPerson", false, false), schema.SpawnStructField("Members", "XPeople", false, false),
+		schema.SpawnStructField("Tags", "XTags", false, false)}, schema.SpawnStructRepresentationMap(map[string]string{"Lead": "boss"})))
+	return ts
+}
+
 // RunBindHistory runs one history in THIS process (the caller gives every history a fresh process,
 // because the state the histories are about is process-global).
 func RunBindHistory(h *BindHist) *run.Finding {
@@ -480,7 +500,14 @@ func RunBindHistory(h *BindHist) *run.Finding {
 		},
 	}
 	names := []string{"HPerson", "HTags", "HTeam"}
-	expect := make([]model.Value, 3)
+	tsX := explicitTypeSystem()
+	namesX := []string{"XPerson", "XTags", "XTeam"}
+	expect := make([]model.Value, 3)  // what an INFERRED bind gives alone (computed through the mirror type system)
+	expectX := make([]model.Value, 3) // what an EXPLICIT bind gives alone
+	for i := range values {
+		nx := bindnode.Wrap(values[i](), tsX.TypeByName(namesX[i]))
+		expectX[i], _ = model.Project(nx.Representation())
+	}
 	for i := range values {
 		// reference observation: the explicit-schema wrap in a state nobody has touched yet is computed
 		// by the parent and passed in the case?  Simpler: data-model projection of an explicit wrap
@@ -491,8 +518,10 @@ func RunBindHistory(h *BindHist) *run.Finding {
 	for si, st := range h.Steps {
 		i := st.T - 1
 		var typ schema.Type
+		expect := expect
 		if st.Mode == "explicit" {
-			typ = ts.TypeByName(names[i])
+			typ = tsX.TypeByName(namesX[i])
+			expect = expectX
 		}
 		target := "bindnode." + st.Op + "[" + st.Mode + "]"
 		fail := func(class, detail string) *run.Finding {
